@@ -198,16 +198,33 @@ class RealStore:
 
     # ------------------------------------------------------------------ observation (black box)
     def observe(self):
-        """What a user of the API can see: which live tokens are triggered; queries on edges."""
-        o = {"trig": [t["gid"] for t in self.tokens if t["state"] == "live" and t["ev"].triggered]}
+        """What a user of the API can see: which live tokens are triggered, which items are offered
+        as ready (documented attribute / edge method), the edge queries, and whether the current
+        instant is over (no kernel event left at `now` that anybody listens to)."""
+        s = self.store
+        env = self.env
+        o = {"trig": [t["gid"] for t in self.tokens if t["state"] == "live" and t["ev"].triggered],
+             "ready": [], "cp": 2, "cg": 2, "occ": -1}
+        if hasattr(s, "ready_items"):
+            o["ready"] = [getattr(x, "gid", -1) for x in s.ready_items]
         if self.edge is not None:
-            o["canput"] = bool(self.edge.can_put())
-            o["canget"] = bool(self.edge.can_get())
-            if hasattr(self.edge, "occupancy") and self.kind == "buffer":
+            o["cp"] = 1 if self.edge.can_put() else 0
+            o["cg"] = 1 if self.edge.can_get() else 0
+            if self.kind == "buffer":
                 o["occ"] = self.edge.occupancy()
-            elif hasattr(self.edge, "get_occupancy"):
+            else:
                 o["occ"] = self.edge.get_occupancy()
+        q = True
+        for (t, _p, _e, ev) in env._queue:
+            if t <= env.now and ev.callbacks:
+                q = False
+                break
+        o["q"] = q
         return o
+
+    def blank(self, k):
+        return {"k": k, "t": self.now, "op": "", "p": 0, "tok": 0, "it": 0, "tag": 0, "d": 0, "prio": 0, "flt": 1,
+                "res": "", "ri": 0, "dr": -1}
 
     # ------------------------------------------------------------------ calls
     def _new_token(self, ev, kind, owner, prio, flt):
@@ -235,8 +252,9 @@ class RealStore:
         Returns (event dict for the trace, normalised result)."""
         op = c["op"]
         api = self.api
-        ev = {"k": "call", "t": self.now, "op": op, "p": c["p"], "tok": 0, "item": 0, "tag": c["tag"], "d": c["d"],
-              "prio": c["prio"], "flt": c["flt"], "res": "", "ri": 0, "tokst": ""}
+        ev = self.blank("c")
+        ev.update({"op": op, "p": c["p"], "tag": c["tag"], "d": c["d"], "prio": c["prio"],
+                   "flt": c["flt"] if c["flt"] in (0, 1, 2, 3) and op == "rg" and self.kind == "filter" else 1})
         hasprio = self.kind in ("prio", "filter") or (self.kind == "fleet" and self.edge is None)
         with quiet():
             if op == "rp":
@@ -271,7 +289,6 @@ class RealStore:
             elif op == "put":
                 t = self.resolve_token(c["n"])
                 ev["tok"] = t["gid"]
-                ev["tokst"] = t["state"]
                 it = FlowItem(len(self.items) + 1, c["tag"])
                 if self.kind == "buffer":
                     if self.edge is not None:
@@ -284,12 +301,12 @@ class RealStore:
                     fn = lambda: api.put(t["ev"], it)
                 r = self.cmd.call(c["p"], fn)
                 if self.kind == "buffer" and self.edge is not None:
-                    ev["draws"] = self.delay_calls - calls0
+                    ev["dr"] = self.delay_calls - calls0
                     self.delay_plan = []
                 if r[0] == "ret" and r[1]:
                     self.items.append(it)
                     t["state"] = "used"
-                    ev["item"] = it.gid
+                    ev["it"] = it.gid
                     ev["res"] = "ok"
                     res = ["ok"]
                 else:
@@ -298,7 +315,6 @@ class RealStore:
             elif op == "get":
                 t = self.resolve_token(c["n"])
                 ev["tok"] = t["gid"]
-                ev["tokst"] = t["state"]
                 pre = {id(x): i + 1 for i, x in enumerate(self.inside_items())}
                 r = self.cmd.call(c["p"], lambda: api.get(t["ev"]))
                 if r[0] == "ret":
@@ -314,7 +330,6 @@ class RealStore:
             elif op in ("cp", "cg"):
                 t = self.resolve_token(c["n"])
                 ev["tok"] = t["gid"]
-                ev["tokst"] = t["state"]
                 fn = (lambda: api.reserve_put_cancel(t["ev"])) if op == "cp" else (lambda: api.reserve_get_cancel(t["ev"]))
                 r = self.cmd.call(c["p"], fn)
                 if r[0] == "ret":
@@ -334,7 +349,7 @@ class RealStore:
             self.now += 1
             self.env.advance_to(self.now * TICK)
             self.env.drain_urgent()
-            ev = {"k": "tick", "t": self.now}
+            ev = self.blank("t")
             ev.update(self.observe())
         return ev
 
@@ -355,7 +370,7 @@ class RealStore:
                     if self.kind == "filter":
                         self._absorb_equal_triggers()
                     break
-            ev = {"k": "fire", "t": self.now, "n": n}
+            ev = self.blank("f")
             ev.update(self.observe())
         return ev, changed
 
@@ -391,6 +406,29 @@ class RealStore:
             if proj() != ref:
                 break
 
+    def settle_events(self, max_events=10000):
+        """Process the rest of the current instant kernel event by kernel event; one "f" trace event per
+        observable change (so that a trace event never merges two grants of different kernel events),
+        then the end-of-instant observation."""
+        out = []
+        with quiet():
+            last = json.dumps(self.observe(), sort_keys=True)
+            n = 0
+            while not self.env.instant_over() and n < max_events:
+                self.env.step()
+                n += 1
+                o = self.observe()
+                cur = json.dumps(o, sort_keys=True)
+                if cur != last:
+                    ev = self.blank("f")
+                    ev.update(o)
+                    out.append(ev)
+                    last = cur
+            ev = self.blank("e")
+            ev.update(self.observe())
+            out.append(ev)
+        return out
+
     def settle(self, max_events=10000):
         """Process everything left in the current instant (end of instant)."""
         with quiet():
@@ -398,6 +436,68 @@ class RealStore:
             while not self.env.instant_over() and n < max_events:
                 self.env.step()
                 n += 1
-            ev = {"k": "eoi", "t": self.now, "n": n}
+            ev = self.blank("e")
             ev.update(self.observe())
         return ev
+
+
+# ---------------------------------------------------------------------- random histories (not model driven)
+def random_history(real, rng, nsteps, prios=(0,), filters=(1,), tags=(0,), delays=(0,), nprocs=2, p_ill=0.12,
+                   p_tick=0.15, max_live=8):
+    """Extend the trace of `real` by up to nsteps random API calls / ticks chosen from what is alive in
+    the REAL object (tokens by global id).  Mostly well-formed calls, some ill-formed ones.  Used for long
+    histories beyond the model bound and to keep observing after a walk left the model (drift)."""
+    evs = []
+    timed = real.kind in ("buffer", "fleet", "filter")
+    for _ in range(nsteps):
+        live = [t for t in real.tokens if t["state"] == "live"]
+        gput = [t for t in live if t["kind"] == "put" and t["ev"].triggered]
+        gget = [t for t in live if t["kind"] == "get" and t["ev"].triggered]
+        r = rng.random()
+        if timed and r < p_tick:
+            evs.extend(real.settle_events())
+            evs.append(real.tick())
+            evs.extend(real.settle_events())
+            continue
+        procs = list(range(0, nprocs + 1))
+        ops = []
+        if len(live) < max_live:
+            ops += ["rp", "rg", "rp", "rg"]
+        if gput:
+            ops += ["put"] * 4
+        if gget:
+            ops += ["get"] * 4
+        if live:
+            ops += ["cancel"]
+        if rng.random() < p_ill or not ops:
+            ops = ["ill"]
+        op = rng.choice(ops)
+
+        def numbered(tok):
+            lt = real.live_tokens()
+            for i, t in enumerate(lt):
+                if t is tok:
+                    return i + 1
+            return 0
+        c = {"op": op, "p": 0, "n": 0, "prio": 0, "flt": 1, "tag": 0, "d": 0}
+        if op == "rp":
+            c.update(p=rng.choice(procs), prio=rng.choice(prios))
+        elif op == "rg":
+            c.update(p=rng.choice(procs), prio=rng.choice(prios), flt=rng.choice(filters))
+        elif op == "put":
+            t = rng.choice(gput)
+            c.update(p=t["owner"], n=numbered(t), tag=rng.choice(tags), d=rng.choice(delays))
+        elif op == "get":
+            t = rng.choice(gget)
+            c.update(p=t["owner"], n=numbered(t))
+        elif op == "cancel":
+            t = rng.choice(live)
+            c.update(op="cp" if t["kind"] == "put" else "cg", n=numbered(t))
+        else:
+            c.update(op=rng.choice(["put", "get", "cp", "cg"]), p=rng.choice(procs),
+                     n=rng.choice([0] + [numbered(t) for t in live]) if live else 0,
+                     tag=rng.choice(tags), d=rng.choice(delays))
+        ev, _res = real.call(c)
+        evs.append(ev)
+    evs.extend(real.settle_events())
+    return evs
